@@ -344,11 +344,12 @@ func (w *Writer) WriteCSM(csm io.ColumnSeriesMap, isVariableLength bool) error {
 			}
 		}
 
-		rs, err := cs.ToRowSeries(tbk, alignData)
+		// serialize in the bucket's column order: the columns were matched by name, so a request that
+		// lists them in another order must not be stored by position
+		rowData, _, err := io.SerializeColumnsToRows(cs, dbDSV, alignData)
 		if err != nil {
 			return fmt.Errorf("convert column series to row series. tbk=%s: %w", tbk, err)
 		}
-		rowData := rs.GetData()
 		err = w.WriteRecords(times, rowData, dbDSV, tbi)
 		if err != nil {
 			return fmt.Errorf("write records to %v: %w", tbi, err)
